@@ -32,6 +32,21 @@ def main(argv=None):
         seed = 0
     tier = args.tier if args.tier in ('quick', 'thorough') else 'quick'
     pid = args.prop.upper()
+    # every temporary file of this run (and of its forked workers) lives under one directory that is removed at the end,
+    # also when workers are terminated in the middle of an execution
+    import shutil
+    import tempfile
+    scratch = tempfile.mkdtemp(prefix='vf_%s_' % pid)
+    tempfile.tempdir = scratch
+    os.environ['TMPDIR'] = scratch
+    try:
+        return _run(args, core, pid, tier, seed)
+    finally:
+        tempfile.tempdir = None
+        shutil.rmtree(scratch, ignore_errors=True)
+
+
+def _run(args, core, pid, tier, seed):
     try:
         core.bind_repo()
         mod = importlib.import_module('vf.checks.' + pid.lower())
